@@ -35,7 +35,7 @@ pub fn c16(args: Args) {
         "random histories (users, groups, service accounts, OAuth2 client with scope maps, entry managers; reference edits to live/recycled/tombstoned/never-existing uuids; delete, revive, purge; 1-2 replicas with conflicts); after every commit every reference-valued attribute (storage tags RF/OM/OC) of every live entry must point at a live entry; non-trivial = history with an accepted delete of a referenced entry or a rejected dangling reference; distinct by full op list");
     run.assume("reference-valued attributes are recognised by storage encoding (Reference, OauthScopeMap, OauthClaimMap); session/oauth2-session records are not references (DESIGN C16)");
     let prof = Profile {
-        replicas_min: 1, replicas_max: 2, file_backed: false, ops_min: 25, ops_max: 70, prefill: 0, long_gaps_when_replicated: false, level: kanidmd_lib::constants::DOMAIN_TGT_LEVEL, unique_names: true, home_creates: true, skewed_quarters: 0, late_joiner: false,
+        replicas_min: 1, replicas_max: 2, file_backed: false, ops_min: 25, ops_max: 70, prefill: 0, long_gaps_when_replicated: false, level: kanidmd_lib::constants::DOMAIN_TGT_LEVEL, unique_names: true, home_creates: true, skewed_quarters: 0, late_joiner: false, revive_pairs: false,
         pop: Pop { persons: 4, services: 2, groups: 4, dyngroups: 0, oauths: 1, certs: 2, names: 6 },
         w: Weights { create: 30, rename: 3, set_desc: 3, add_member: 22, rem_member: 6, set_manager: 12, scope_map: 10, claim_map: 12,
             delete: 14, revive: 8, purge_recycled: 3, purge_tombstones: 2, advance_small: 4, advance_big: 4, repl: 8, abort: 2, ..Default::default() },
@@ -79,7 +79,7 @@ pub fn c17(args: Args) {
     let mut run = Run::new(args.clone(), "exploration",
         "random group graphs (up to 10 harness groups + builtin groups, cycles and self-membership allowed) edited by member add/remove, group delete/revive, dyngroup contributions, 1-2 replicas; after every commit memberof == reachable-by->=1-link set over live groups and directmemberof == direct listing groups, for every live entry; non-trivial = history with >= 3 accepted member edits and a delete or revive; distinct by full op list");
     let prof = Profile {
-        replicas_min: 1, replicas_max: 2, file_backed: false, ops_min: 30, ops_max: 80, prefill: 0, long_gaps_when_replicated: false, level: kanidmd_lib::constants::DOMAIN_TGT_LEVEL, unique_names: true, home_creates: true, skewed_quarters: 0, late_joiner: false,
+        replicas_min: 1, replicas_max: 2, file_backed: false, ops_min: 30, ops_max: 80, prefill: 0, long_gaps_when_replicated: false, level: kanidmd_lib::constants::DOMAIN_TGT_LEVEL, unique_names: true, home_creates: true, skewed_quarters: 0, late_joiner: false, revive_pairs: false,
         pop: Pop { persons: 4, services: 1, groups: 8, dyngroups: 2, oauths: 0, certs: 0, names: 6 },
         w: Weights { create: 35, set_desc: 5, add_member: 40, rem_member: 14, delete: 10, revive: 7, dyn_filter: 4, purge_recycled: 2, advance_small: 3, advance_big: 2, repl: 8, abort: 2, rename: 2, ..Default::default() },
     };
@@ -137,7 +137,7 @@ pub fn c18(args: Args) {
         "random histories creating/editing/deleting candidate entries (class, name, description) and dynamic groups with random filters (8 filter shapes incl. and/or/andnot/pres), filter edits, dyngroup delete/revive; after every commit each live dyngroup's dynmember == entries found by a plain search with its stored filter (self excluded); non-trivial = history where some dyngroup had a non-empty member set and a filter or candidate edit was accepted; distinct by full op list");
     run.assume("membership of the dyngroup in itself is not judged (the statement does not say)");
     let prof = Profile {
-        replicas_min: 1, replicas_max: 1, file_backed: false, ops_min: 25, ops_max: 60, prefill: 0, long_gaps_when_replicated: false, level: kanidmd_lib::constants::DOMAIN_TGT_LEVEL, unique_names: false, home_creates: false, skewed_quarters: 0, late_joiner: false,
+        replicas_min: 1, replicas_max: 1, file_backed: false, ops_min: 25, ops_max: 60, prefill: 0, long_gaps_when_replicated: false, level: kanidmd_lib::constants::DOMAIN_TGT_LEVEL, unique_names: false, home_creates: false, skewed_quarters: 0, late_joiner: false, revive_pairs: false,
         pop: Pop { persons: 4, services: 2, groups: 2, dyngroups: 3, oauths: 0, certs: 0, names: 4 },
         w: Weights { create: 35, rename: 10, set_desc: 25, dyn_filter: 14, delete: 10, revive: 6, add_member: 4, purge_recycled: 1, advance_small: 2, advance_big: 1, abort: 2, ..Default::default() },
     };
@@ -155,7 +155,7 @@ pub fn c19(args: Args) {
     let mut run = Run::new(args.clone(), "exploration",
         "random creates and renames from a 4-name pool (single requests, two-entry requests, separate transactions, concurrently on 1-3 replicas with random replication schedules); after every commit no two live entries share a uuid or a value of any schema-unique attribute; at quiescence every replica holds identical conflict entries; non-trivial = history where a name clash was attempted (rejected locally or resolved by conflict); distinct by full op list");
     let prof = Profile {
-        replicas_min: 1, replicas_max: 3, file_backed: false, ops_min: 15, ops_max: 50, prefill: 0, long_gaps_when_replicated: false, level: kanidmd_lib::constants::DOMAIN_TGT_LEVEL, unique_names: false, home_creates: false, skewed_quarters: 0, late_joiner: false,
+        replicas_min: 1, replicas_max: 3, file_backed: false, ops_min: 15, ops_max: 50, prefill: 0, long_gaps_when_replicated: false, level: kanidmd_lib::constants::DOMAIN_TGT_LEVEL, unique_names: false, home_creates: false, skewed_quarters: 0, late_joiner: false, revive_pairs: false,
         pop: Pop { persons: 4, services: 2, groups: 3, dyngroups: 0, oauths: 0, certs: 0, names: 4 },
         w: Weights { create: 40, create_pair: 10, rename: 25, set_desc: 4, delete: 6, revive: 4, advance_small: 6, repl: 14, abort: 2, ..Default::default() },
     };
@@ -204,7 +204,7 @@ pub fn c22(args: Args) {
         "random creates/renames of persons, groups, service accounts (incl. supplied wrong spn values and spn purge/tamper requests) interleaved with domain renames; after every commit every live account or group has exactly one spn == name@current-domain (domain read from the stored domain entry); non-trivial = history with an accepted rename and an accepted domain rename; distinct by full op list");
     run.assume("entries without a name attribute are only required to have one spn with the current domain part (DESIGN C22)");
     let prof = Profile {
-        replicas_min: 1, replicas_max: 1, file_backed: false, ops_min: 20, ops_max: 60, prefill: 0, long_gaps_when_replicated: false, level: kanidmd_lib::constants::DOMAIN_TGT_LEVEL, unique_names: false, home_creates: false, skewed_quarters: 0, late_joiner: false,
+        replicas_min: 1, replicas_max: 1, file_backed: false, ops_min: 20, ops_max: 60, prefill: 0, long_gaps_when_replicated: false, level: kanidmd_lib::constants::DOMAIN_TGT_LEVEL, unique_names: false, home_creates: false, skewed_quarters: 0, late_joiner: false, revive_pairs: false,
         pop: Pop { persons: 4, services: 2, groups: 4, dyngroups: 0, oauths: 1, certs: 0, names: 6 },
         w: Weights { create: 35, create_bad_spn: 8, create_pair: 4, rename: 25, domain_rename: 10, spn_tamper: 10, set_desc: 4, delete: 5, revive: 4, add_member: 4, abort: 2, advance_small: 2, ..Default::default() },
     };
@@ -217,7 +217,7 @@ pub fn c22(args: Args) {
     // invariant on two replicas with concurrent renames and unrelated edits (no domain rename
     // here: renaming the domain of a replicated topology is a separate, manual procedure)
     let prof2 = Profile {
-        replicas_min: 2, replicas_max: 2, file_backed: false, ops_min: 15, ops_max: 45, prefill: 0, long_gaps_when_replicated: false, level: kanidmd_lib::constants::DOMAIN_TGT_LEVEL, unique_names: true, home_creates: true, skewed_quarters: 0, late_joiner: false,
+        replicas_min: 2, replicas_max: 2, file_backed: false, ops_min: 15, ops_max: 45, prefill: 0, long_gaps_when_replicated: false, level: kanidmd_lib::constants::DOMAIN_TGT_LEVEL, unique_names: true, home_creates: true, skewed_quarters: 0, late_joiner: false, revive_pairs: false,
         pop: Pop { persons: 3, services: 1, groups: 3, dyngroups: 0, oauths: 0, certs: 0, names: 6 },
         w: Weights { create: 30, rename: 25, set_desc: 14, add_member: 6, delete: 3, advance_small: 5, repl: 20, abort: 1, ..Default::default() },
     };
@@ -237,13 +237,13 @@ pub fn c15(args: Args) {
     // Schema entries created at run time only take effect below domain level 15 (from 15 on the
     // schema comes from the migration data), and replication needs the current level: two profiles.
     let prof_schema = Profile {
-        replicas_min: 1, replicas_max: 1, file_backed: false, ops_min: 25, ops_max: 70, prefill: 0, long_gaps_when_replicated: false, level: 14, unique_names: false, home_creates: false, skewed_quarters: 0, late_joiner: false,
+        replicas_min: 1, replicas_max: 1, file_backed: false, ops_min: 25, ops_max: 70, prefill: 0, long_gaps_when_replicated: false, level: 14, unique_names: false, home_creates: false, skewed_quarters: 0, late_joiner: false, revive_pairs: false,
         pop: Pop { persons: 3, services: 2, groups: 3, dyngroups: 0, oauths: 1, certs: 0, names: 6 },
         w: Weights { create: 30, rename: 5, set_desc: 8, add_desc_multi: 8, add_member: 6, ill_formed: 22, schema_attr: 8, schema_class: 8, custom_set: 18, class_remove: 8,
             delete: 4, revive: 3, advance_small: 3, abort: 3, ..Default::default() },
     };
     let prof_repl = Profile {
-        replicas_min: 1, replicas_max: 2, file_backed: false, ops_min: 25, ops_max: 70, prefill: 0, long_gaps_when_replicated: false, level: kanidmd_lib::constants::DOMAIN_TGT_LEVEL, unique_names: true, home_creates: true, skewed_quarters: 0, late_joiner: false,
+        replicas_min: 1, replicas_max: 2, file_backed: false, ops_min: 25, ops_max: 70, prefill: 0, long_gaps_when_replicated: false, level: kanidmd_lib::constants::DOMAIN_TGT_LEVEL, unique_names: true, home_creates: true, skewed_quarters: 0, late_joiner: false, revive_pairs: false,
         pop: Pop { persons: 3, services: 2, groups: 3, dyngroups: 0, oauths: 1, certs: 1, names: 6 },
         w: Weights { create: 30, rename: 6, set_desc: 10, add_desc_multi: 8, add_member: 8, set_manager: 4, scope_map: 4, ill_formed: 24,
             delete: 5, revive: 3, repl: 12, advance_small: 3, abort: 3, ..Default::default() },
